@@ -205,7 +205,7 @@ func init() {
 		Technique: "metamorphic property-based testing (rapid): observation under a re-spelling of the token sequence must equal the observation under the canonical spelling; exhaustive single/pair boundary variation on exemplars",
 		Rule: "model programs (all tag kinds and expression forms, single- and multi-template) x re-spellings of their token sequence: at each token boundary inside {{ }} / {% %} one of \"\" (only where a conservative predicate says the tokens cannot fuse), blank, two blanks, tab, LF, CRLF, CR, mixed; quote style of plain string literals; trailing comma in array/hash literals; '-' markers on delimiters without adjacent whitespace. Multi-word operators keep their single inner blank. " +
 			"(a) random spellings of random programs; (b) for one exemplar per tag kind and expression form (~60) exhaustive over the whitespace choice at every single boundary (and every pair of boundaries in the thorough tier). " +
-			"Oracle: same status and same output as the canonical spelling; a crash or hang of either is a violation. Non-trivial: the spelling differs at >= 1 boundary and uses no whitespace or a non-blank whitespace character somewhere; distinct by sources.",
+			"Oracle: same status and same output as the canonical spelling; a crash or hang of either is a violation. Non-trivial: the spelling differs at >= 1 boundary and uses no whitespace or a non-blank whitespace character somewhere; distinct by sources. Exemplars also use operator and keyword words (in, is, not, and, or, matches, if, for, with, only, as, b, starts, true, null, divisible) as attribute names, hash keys, variables and loop variables - whatever stick makes of them, every spelling must be treated alike.",
 		Assumptions: []string{"the canonical spelling's own meaning is decided by the model-based checks (C03-C11)", "the cannot-fuse predicate (model.MustSep) is conservative: it forces whitespace wherever two tokens might merge, so such boundaries are never written tight"},
 	}
 	sub := NewSub(p, "respell", func(c *Ctx, cs *c14Case) *Fail {
